@@ -30,6 +30,7 @@ import (
 type c02case struct {
 	Seed   int64 `json:"seed"`
 	Blocks int   `json:"blocks"`
+	Shards int   `json:"shards"` // > 1: a genesis of several equally sized shards; key holders without identity get invited and activate
 }
 
 type row struct {
@@ -39,7 +40,17 @@ type row struct {
 }
 
 func c02run(c *hx.Ctx, cs c02case) error {
-	p, err := pairfx.NewPair(cs.Seed, true, 8)
+	var p *pairfx.Pair
+	var err error
+	if cs.Shards > 1 {
+		p, err = pairfx.NewPairWith(cs.Seed, true, 11, func(w *chainfx.World, o *chainfx.HistoryOpts) {
+			w.AddFresh(6)
+			w.Sharded(cs.Shards)
+			o.Onboard = true
+		})
+	} else {
+		p, err = pairfx.NewPair(cs.Seed, true, 8)
+	}
 	if err != nil {
 		return err
 	}
@@ -61,8 +72,15 @@ func c02run(c *hx.Ctx, cs c02case) error {
 		}
 		chainfx.Advance(20 * 1e9)
 		if !A.IsEligibleProposer() {
-			c.Hit("history-ended:proposer-not-eligible")
-			break
+			if !B.IsEligibleProposer() {
+				c.Hit("history-ended:no-replica-may-propose")
+				break
+			}
+			// the other replica takes over for good (the generated transactions go to its pool from now on)
+			p.A, p.B = p.B, p.A
+			A, B = p.A, p.B
+			p.H.N = A
+			c.Hit("proposer-roles-swapped")
 		}
 		head := A.Chain.Head
 		stub := &types.ProposedHeader{Height: head.Height() + 1, ParentHash: head.Hash(), Time: common.VerifNow().Unix(),
@@ -88,6 +106,12 @@ func c02run(c *hx.Ctx, cs c02case) error {
 		}
 		r.Shuffle(len(adv), func(i, j int) { adv[i], adv[j] = adv[j], adv[i] })
 		lists = append(lists, adv)
+		// gas boundary list: payload sizes tuned so that the cumulated gas is exactly cap-10 / cap / cap+10 after the second
+		// transaction, followed by small ones (both paths must agree on what may still follow a block that is exactly full)
+		if bl := boundaryList(p, A, capGas, int64(b%3-1)*10); len(bl) > 0 {
+			lists = append(lists, bl)
+			c.Hit(fmt.Sprintf("boundary-list:cap%+d", (b%3-1)*10))
+		}
 		for li, L := range lists {
 			if len(L) == 0 {
 				continue
@@ -263,6 +287,84 @@ func c02run(c *hx.Ctx, cs c02case) error {
 	return nil
 }
 
+// boundaryList builds [big, fill, small, small]: gas(big) + gas(fill) = cap + delta exactly (gas = 10 x encoded size).
+func boundaryList(p *pairfx.Pair, n *chainfx.Node, capGas uint64, delta int64) []*types.Transaction {
+	st := n.App.State
+	if st.ValidationPeriod() != 0 {
+		return nil
+	}
+	fpg := st.FeePerGas()
+	if fpg == nil || fpg.Sign() == 0 {
+		return nil
+	}
+	var senders []int
+	for i := 1; i < len(p.W.Keys) && len(senders) < 6; i++ {
+		need := new(big.Int).Mul(fpg, big.NewInt(int64(capGas)*2))
+		if st.GetBalance(p.W.Addrs[i]).Cmp(need) > 0 {
+			senders = append(senders, i)
+		}
+	}
+	if len(senders) < 6 {
+		return nil
+	}
+	mk := func(i int, payload int, gasTarget int) *types.Transaction {
+		to := p.W.Addrs[0]
+		nonce := uint32(1)
+		if st.GetEpoch(p.W.Addrs[i]) == st.Epoch() {
+			nonce = st.GetNonce(p.W.Addrs[i]) + 1
+		}
+		tx := &types.Transaction{Type: types.SendTx, To: &to, Amount: big.NewInt(1), Epoch: st.Epoch(), AccountNonce: nonce, Payload: make([]byte, payload)}
+		// the fee the transaction will cost and nothing more (validation refuses a max fee that buys more than a block of gas)
+		tx.MaxFee = new(big.Int).Mul(fpg, big.NewInt(int64(gasTarget)))
+		stx, _ := types.SignTx(tx, p.W.Keys[i])
+		return stx
+	}
+	// tune a payload length until the transaction's gas is exactly the target (the encoding adds a few varint bytes)
+	tune := func(i int, target int) *types.Transaction {
+		pl := target/10 - 200
+		if pl < 0 {
+			return nil
+		}
+		for try := 0; try < 40; try++ {
+			tx := mk(i, pl, target)
+			g := fee.CalculateGas(tx)
+			if g == target {
+				return tx
+			}
+			pl += (target - g) / 10
+			if pl < 0 {
+				return nil
+			}
+		}
+		return nil
+	}
+	total := int64(capGas) + delta
+	if total%10 != 0 || len(senders) < 6 {
+		return nil
+	}
+	part := int(total/4) / 10 * 10
+	var out []*types.Transaction
+	sum := 0
+	for k := 0; k < 3; k++ {
+		tx := tune(senders[k], part)
+		if tx == nil {
+			return nil
+		}
+		out = append(out, tx)
+		sum += part
+	}
+	fill := tune(senders[3], int(total)-sum)
+	if fill == nil {
+		return nil
+	}
+	out = append(out, fill, mk(senders[4], 3, 2000), mk(senders[5], 5, 2000))
+	if os.Getenv("C02_DEBUG") != "" {
+		cs, _ := n.App.ForCheck(n.Chain.Head.Height())
+		fmt.Fprintln(os.Stderr, "boundary validate:", validation.ValidateTx(cs, out[0], fee.GetFeePerGasForNetwork(cs.ValidatorsCache.NetworkSize()), validation.InBlockTx), fee.CalculateGas(out[0]), fee.CalculateGas(fill), fpg)
+	}
+	return out
+}
+
 func keptHashes(l []*types.Transaction) []string {
 	r := make([]string, len(l))
 	for i, tx := range l {
@@ -355,6 +457,9 @@ func init() {
 		nh := c.Scale(4, 120)
 		for i := 0; i < nh; i++ {
 			cs := c02case{Seed: c.Seed*1000 + int64(i), Blocks: 140}
+			if i%2 == 1 {
+				cs.Shards = 3 + i%4/2
+			}
 			if err := c02run(c, cs); err != nil {
 				return err
 			}
